@@ -67,6 +67,27 @@ func c12R1(e *Engine) {
 		}
 	}
 	// (b) conversions between numerals and floats, float arithmetic/comparison on number objects
+	// A boundary site (numeral text <-> binary float, float -> integer, float rounding) is identified by its kind and by
+	// WHAT it converts (the origin of its operand: the N field of an attribute, an element of an NS set, the value of a
+	// number object …), not by the function it happens to sit in: a refactoring that moves the conversion into a helper
+	// leaves the finding the same finding, a new conversion of something else – or a second one of the same – is a new one.
+	type boundary struct {
+		count int
+		pos   string
+		fns   map[string]bool
+	}
+	boundaries := map[string]*boundary{}
+	operand := func(v ssa.Value) string {
+		var os []string
+		for _, o := range e.origins(v) {
+			if strings.HasPrefix(o, "const:") {
+				continue
+			}
+			os = append(os, o)
+		}
+		sort.Strings(os)
+		return strings.Join(os, "|")
+	}
 	for _, fn := range e.funcs("lang", "interp", "core", "v1", "v2") {
 		counts := map[string]int{}
 		var firstPos = map[string]string{}
@@ -76,21 +97,32 @@ func c12R1(e *Engine) {
 				firstPos[kind] = e.ipos(in)
 			}
 		}
+		site := func(kind string, v ssa.Value, in ssa.Instruction) {
+			key := fmt.Sprintf("%s:%s(%s)", e.fnRole(fn), kind, operand(v))
+			b := boundaries[key]
+			if b == nil {
+				b = &boundary{pos: e.ipos(in), fns: map[string]bool{}}
+				boundaries[key] = b
+			}
+			b.count++
+			b.fns[e.fname(fn)] = true
+		}
 		instrs(fn, func(in ssa.Instruction) {
 			switch x := in.(type) {
 			case *ssa.Call:
 				switch staticCalleeName(x) {
 				case "strconv.ParseFloat":
-					note("ParseFloat", in)
+					site("ParseFloat", x.Call.Args[0], in)
 				case "strconv.FormatFloat":
-					note("FormatFloat", in)
+					site("FormatFloat", x.Call.Args[0], in)
 				case "math.Round", "math.Floor", "math.Ceil", "math.Trunc", "math.Pow", "math.Mod", "math.RoundToEven":
-					note("float-rounding", in)
+					site("float-rounding", x.Call.Args[0], in)
 				case "strconv.Atoi", "strconv.ParseInt":
 					// only when fed by an attribute numeral
 					for _, o := range e.origins(x.Call.Args[0]) {
 						if strings.Contains(o, "Item.N") {
-							note("ParseInt", in)
+							site("ParseInt", x.Call.Args[0], in)
+							break
 						}
 					}
 				}
@@ -106,7 +138,7 @@ func c12R1(e *Engine) {
 				}
 			case *ssa.Convert:
 				if isFloat(x.X.Type()) && isIntType(x.Type()) {
-					note("float-to-int", in)
+					site("float-to-int", x.X, in)
 				}
 			case *ssa.Lookup:
 				if m, ok := x.X.Type().Underlying().(*types.Map); ok && isFloat(m.Key()) {
@@ -128,13 +160,17 @@ func c12R1(e *Engine) {
 			// arithmetic, comparison and set membership on values that already ARE float64 are consequences of the
 			// representation (the type findings above), wherever a refactoring puts them; they are listed, not findings
 			// of their own. The conversions between numeral text and binary floating point are the boundary and are.
-			consequence := k == "float-arithmetic" || k == "float-comparison" || k == "float-keyed-membership"
-			if consequence && floatFields > 0 && e.fnRole(fn) == "lang" {
+			if floatFields > 0 && e.fnRole(fn) == "lang" {
 				e.ob("R1", fmt.Sprintf("%s:%s", e.fname(fn), k), firstPos[k], Pass, false, "%d site(s) of %s on float64 number objects: a consequence of the representation reported as type:lang.Number.Value / NumberSet.Value", counts[k], k)
 				continue
 			}
 			e.fail("R1", fmt.Sprintf("%s:%s×%d", e.fname(fn), k, counts[k]), firstPos[k], "%d site(s) of %s on the number path: values are computed in binary floating point instead of exact decimals", counts[k], k)
 		}
+	}
+	for _, key := range sortedKeys(boundaries) {
+		b := boundaries[key]
+		n++
+		e.fail("R1", fmt.Sprintf("%s×%d", key, b.count), b.pos, "%d site(s) in %s: values on the number path are converted to or from binary floating point instead of exact decimals", b.count, strings.Join(sortedKeys(b.fns), ", "))
 	}
 	if n < 5 {
 		e.fail("R1", "count:R1", "-", "only %d lossy sites found; the census has lost sight of the numeric path", n)
